@@ -8,26 +8,26 @@ from .common import Driver, Timer, Verdict, lean_gate, write_evidence, seed, TRU
 from . import check_coord as CC
 
 MODULES = {
-    "C01": ["NSG.Properties.C01", "NSG.Properties.GenC01", "NSG.Properties.GenAtomic"],
+    "C01": ["NSG.Properties.C01", "NSG.Properties.C01Barrier", "NSG.Properties.GenC01", "NSG.Properties.GenAtomic"],
     "C04": ["NSG.Properties.C04"],
     "C05": ["NSG.Properties.C05"],
-    "C06": ["NSG.Properties.C06", "NSG.Properties.GenAtomic"],
-    "C07": ["NSG.Properties.C07", "NSG.Properties.GenAtomic"],
+    "C06": ["NSG.Properties.C06", "NSG.Properties.C01Barrier", "NSG.Properties.GenAtomic"],
+    "C07": ["NSG.Properties.C07", "NSG.Properties.C01Barrier", "NSG.Properties.GenAtomic"],
     "C09": ["NSG.Properties.C09", "NSG.Properties.GenC09"],
     "C10": ["NSG.Properties.C10", "NSG.Properties.GenAtomic"],
     "C16": ["NSG.Properties.C16"],
     "C18": ["NSG.Properties.C18"],
 }
 PROFILES = {
-    "C01": {"bad": 0.10, "leave": 0.06, "out_of_order": 0.15},
-    "C04": {"bad": 0.03, "leave": 0.02, "outcome_mix": True},
-    "C05": {"bad": 0.02, "leave": 0.08, "outcome_mix": True},
-    "C06": {"bad": 0.02, "leave": 0.04, "outcome_mix": True},
-    "C07": {"bad": 0.02, "leave": 0.08, "early_reset": 0.10},
-    "C09": {"bad": 0.25, "leave": 0.03, "out_of_order": 0.3},
-    "C10": {"bad": 0.03, "leave": 0.20},
-    "C16": {"bad": 0.04, "leave": 0.04},
-    "C18": {"bad": 0.03, "leave": 0.20, "extra_connect": 0.15},
+    "C01": {"burst": 0.25, "bad": 0.10, "leave": 0.06, "out_of_order": 0.15},
+    "C04": {"burst": 0.25, "bad": 0.03, "leave": 0.02, "outcome_mix": True},
+    "C05": {"burst": 0.25, "bad": 0.02, "leave": 0.08, "outcome_mix": True},
+    "C06": {"burst": 0.25, "bad": 0.02, "leave": 0.04, "outcome_mix": True},
+    "C07": {"burst": 0.25, "bad": 0.02, "leave": 0.08, "early_reset": 0.10},
+    "C09": {"burst": 0.25, "bad": 0.25, "leave": 0.03, "out_of_order": 0.3},
+    "C10": {"burst": 0.25, "bad": 0.03, "leave": 0.20},
+    "C16": {"burst": 0.25, "bad": 0.04, "leave": 0.04},
+    "C18": {"burst": 0.25, "bad": 0.03, "leave": 0.20, "extra_connect": 0.15},
 }
 NONTRIVIAL = {
     "C01": ("parked_total", "a request parked at a barrier (start / end / reset) at a quiescent point"),
@@ -63,7 +63,7 @@ def main(prop, tier):
         rng = random.Random(1000003 * seed() + int(prop[1:]) * 7 + 1)
         drv = Driver()
         try:
-            n_sessions = 60 if tier == "quick" else 600
+            n_sessions = 150 if tier == "quick" else 1500
             n_events = 45 if tier == "quick" else 60
             if prop == "C04":
                 CC.check_goal_function(drv, rng, on_fail, stats, 3000 if tier == "quick" else 60000)
